@@ -283,6 +283,7 @@ E('look-minimal', lambda s: repr(etl.look(s, style='minimal', index_header=True)
 # unjoin
 E('unjoin', lambda s: etl.unjoin(s, 'f2', key='f1'), kind='multi', group='joins')
 E('unjoin-nokey', lambda s: etl.unjoin(s, 'f2'), kind='multi', group='joins', ragged=False)
+E('unjoin-autoincrement', lambda s: etl.unjoin(s, 'f2', autoincrement=(10, 5)), kind='multi', group='joins', ragged=False)
 
 # ---------------------------------------------------------------------------
 # binary: joins (second input has fields f0, g1)
